@@ -62,6 +62,7 @@ class ExtendsNode(Node):
         context.tag_namespace["extends"] = defaultdict(list)
         try:
             base_template = _build_block_stacks(context, context.template, "extends")
+            _check_required_blocks(context)
             base_template.render_with_context(context, buffer)
         finally:
             context.tag_namespace["extends"] = outer_block_stacks
@@ -79,6 +80,7 @@ class ExtendsNode(Node):
             base_template = await _build_block_stacks_async(
                 context, context.template, "extends"
             )
+            _check_required_blocks(context)
             await base_template.render_with_context_async(context, buffer)
         finally:
             context.tag_namespace["extends"] = outer_block_stacks
@@ -609,6 +611,21 @@ def _stack_blocks(
         return None, blocks
     # return extends[0].name.evaluate(context), blocks
     return extends[0], blocks
+
+
+def _check_required_blocks(context: RenderContext) -> None:
+    """Raise an error if the most derived definition of a block is `required`.
+
+    A required block must be overridden by a child template, whether or not the block
+    is ever reached when rendering the page.
+    """
+    for stack in context.tag_namespace["extends"].values():
+        if stack and stack[0].required:
+            raise RequiredBlockError(
+                f"block {stack[0].block.name!r} must be overridden",
+                token=stack[0].token,
+                template_name=stack[0].source_name,
+            )
 
 
 def _store_blocks(
